@@ -33,6 +33,10 @@ def run(ctx):
         futs = [ex.submit(j) for j in jobs]
         res = [f.result() for f in futs]
     binp = res[1]
+    if not ctx.quick:       # vacuity guard
+        for act in ("Refine", "Finish"):
+            if ctx.cov["actions"].get(act, 0) == 0:
+                raise vf.Infra("model-checking coverage of action %s is 0" % act)
     if ctx.replay:
         cases = [ln for ln in vf.read_lines(ctx.replay) if '"kind"' in ln]
         if not cases:
@@ -55,7 +59,7 @@ def run(ctx):
     ctx.cov["distinct_nontrivial"] = nt
     ctx.cov["rule"] = ("records = C(item, outcome, gas) for items with 0..16 imports x 0..16 extrinsics (lengths 0..2^24+3), ten export counts, nine outcomes, "
                        "six gas values, A(hash, bundle, segments) for bundle lengths 1..300001 x export-segment sequences, and WorkReportCompute over packages of "
-                       "1..4/6 items with scripted outcomes (ok / failed / wrong export count); "
+                       "1..4/8 items with scripted outcomes (ok / failed / wrong export count); "
                        "non-trivial = items with at least one import or extrinsic, specifications with at least one export, all report computations")
     ctx.cov["samples"] = samples
     vf.validate_trace(ctx, "WorkDigest_Trace", lines, shard=150 if ctx.quick else 400, what="work digest / package specification differs from the specification",
